@@ -121,7 +121,12 @@ def compile_program(ctx, name, tus, flags):
 def gen_program(ctx, ncases, nstmts, maxdepth, per_tu):
     """returns (cases, tus, infos)"""
     r = ctx.rng.fork("c01-program")
-    g = c01gen.Gen(r, ctx, maxdepth=maxdepth)
+    calc = None
+    tj = os.path.join(GEN_DIR, "rules.json")
+    if os.path.exists(tj):
+        from checks import c01cls
+        calc = c01cls.ClassCalc(json.load(open(tj)))
+    g = c01gen.Gen(r, ctx, maxdepth=maxdepth, calc=calc)
     cases, srcs, infos = [], [], []
     k = 0
     for _ in range(ncases):
@@ -137,6 +142,10 @@ def gen_program(ctx, ncases, nstmts, maxdepth, per_tu):
     for i in range(0, len(srcs), per_tu):
         body = c01gen.PRELUDE + "".join(srcs[i:i + per_tu]) + c01gen.POSTLUDE
         tus.append((f"gen_{core.sha(body)[:16]}.cpp", body))
+    if calc is not None:
+        ctx.cov["rewrite_rules_fired_in_generated_program"] = dict(sorted(calc.fired.items()))
+        ctx.cov["rewrite_rules_fired_distinct"] = len(calc.fired)
+    ctx.cov["combinations_rejected_as_not_in_library"] = g.unsupported
     return cases, tus, infos
 
 
